@@ -7,7 +7,7 @@
      lit v | var n | list xs | map es(<<k, v>>) | un op x | bin op l r | cond c a b | idx x i | sel x f | has x f
      | call f args | mcall x f args | macro m x v body        (m in map filter all exists exists_one)
    env: sequence of <<name, value>>, innermost binding first.                                                *)
-EXTENDS CelConv, FiniteSets
+EXTENDS CelConv, CelRegex, FiniteSets
 
 Lit(v) == [k |-> "lit", v |-> v]
 Var(n) == [k |-> "var", n |-> n]
@@ -114,6 +114,14 @@ StrFn(f, s, a) ==
          [] f = "endsWith" -> Bool(IsSuffix(a.v, s.v))
          [] OTHER -> Indef
 
+\* matches: a search for the pattern anywhere in the text; an invalid pattern is an evaluation error (CelRegex)
+MatchFn(s, p) ==
+  IF IsErr(s) \/ IsErr(p) THEN Err
+  ELSE IF IsIndef(s) \/ IsIndef(p) THEN Indef
+  ELSE IF s.t # "string" \/ p.t # "string" THEN Indef
+  ELSE LET m == RxMatches(s.v, p.v) IN
+       CASE m = "t" -> Bool(TRUE) [] m = "f" -> Bool(FALSE) [] m = "bad" -> Err [] OTHER -> Indef
+
 AnyErr(s) == \E j \in 1..Len(s) : IsErr(s[j])
 AnyIndef(s) == \E j \in 1..Len(s) : IsIndef(s[j])
 RECURSIVE FoldAndV(_), FoldOrV(_), SelectTrue(_,_)
@@ -169,6 +177,7 @@ Eval(e, env) ==
                           [] Unbound(e.f) -> Err
                           [] e.f = "size" /\ SizeOverridden(env) -> (IF AnyErrSeq(EvalSeq(e.args, env)) THEN Indef ELSE IntV(FromInt(-1)))
                           [] e.f = "size" /\ Len(e.args) = 1 -> SizeOf(Eval(e.args[1], env))
+                          [] e.f = "matches" /\ Len(e.args) = 2 -> MatchFn(Eval(e.args[1], env), Eval(e.args[2], env))
                           [] e.f = "type" /\ Len(e.args) = 1 -> (LET v == Eval(e.args[1], env) IN IF IsErr(v) THEN Err ELSE IF IsIndef(v) THEN Indef ELSE Type(TypeName(v)))
                           [] OTHER -> Indef)
     [] e.k = "mcall" -> (LET x == Eval(e.x, env) IN
@@ -186,6 +195,7 @@ Eval(e, env) ==
                            [] e.f = "size" /\ SizeOverridden(env) -> (IF AnyErrSeq(<<x>> \o EvalSeq(e.args, env)) THEN Indef ELSE IntV(FromInt(-1)))
                            [] e.f = "size" /\ Len(e.args) = 0 -> SizeOf(x)
                            [] e.f \in {"contains", "startsWith", "endsWith"} /\ Len(e.args) = 1 -> StrFn(e.f, x, Eval(e.args[1], env))
+                           [] e.f = "matches" /\ Len(e.args) = 1 -> MatchFn(x, Eval(e.args[1], env))
                            [] OTHER -> Indef)
     [] e.k = "macro" ->
         (LET c == Eval(e.x, env) IN
